@@ -93,7 +93,18 @@ func rsyncMain(ctx context.Context, osenv *rsyncos.Env, opts *rsyncopts.Options,
 		// source is local
 		// other = src
 		paths = sources
-		roDirs = sources
+		for _, src := range sources {
+			// The sender opens the directory that contains a source named
+			// without a trailing slash (sender.SendFileList lists the source
+			// relative to it): the file system restrictions must allow
+			// reading that directory, or the list stays empty and the run
+			// copies nothing.
+			if strings.HasSuffix(src, "/") {
+				roDirs = append(roDirs, src)
+			} else {
+				roDirs = append(roDirs, filepath.Dir(src))
+			}
+		}
 		if opts.LocalServer() {
 			// source and dest are both local
 			rwDirs = []string{dest}
